@@ -90,6 +90,16 @@ theorem resume_keeps_announcement (setT : St → St) (s : St) (j : Nat) (p : Pro
     omega
   exact ⟨e, hok, by rw [hnr, e]⟩
 
+/-- `last_run` after an execution is the instant of that execution (part of the record `nextRecord` that
+`recurring_round` establishes; stated on its own here) -/
+theorem execution_records_last_run (setT : St → St) (s : St) (j : Nat) (due : Int) (p : Producer) (n : Int)
+    (hk : (s.jobs j).kind = .recurring p) (hl : (s.jobs j).linked = true)
+    (hf : ¬ ((s.jobs j).calls ∈ (s.jobs j).trigFail ∨ (s.jobs j).trigFailFrom ≤ (s.jobs j).calls))
+    (hg : getNext s.env (p.anchorAt s.now) s.now = .ok n) :
+    ((execute setT s j due).jobs j).lastRun = some s.now := by
+  rw [execute_recurring_ok setT s j due p n hk hl hf hg]
+  rfl
+
 /-- One round of a recurring job, in every reachable state and whatever else is queued or happens in the same
 wake-up (other due jobs, failing callables and callbacks, jobs that finish, the timer being re-armed
 recursively): when the loop runs and the job's reported run time `t` has been reached, the job is executed in
